@@ -20,6 +20,8 @@ L12 == VList(<<VInt(1), VInt(2)>>)
 L5  == VList(<<VInt(5)>>)
 P(text, segs) == SPath(text, segs)
 Px == P("x", <<"x">>)
+InvSpec == SInvDict(<< <<"a", SProbe("id")>>, <<"b", SProbe("id")>> >>)
+RdSpec == STuple(<<SProbe("id"), SCoal(<<SRead("k")>>, Default(VNone))>>)
 ArgSpec == SCoal(<<Px>>, DefaultArgs(<<SProbe("id"), SRead("k")>>))
 Pa == P("a", <<"a">>)   Pab == P("a.b", <<"a", "b">>)   Pax == P("a.x", <<"a", "x">>)   Pstar == P("*", <<"*">>)
 
@@ -63,7 +65,15 @@ FullPool == <<
   \* through the same Glommer, the inner failure is swallowed by a Coalesce, then it fails itself
   GCall(T1, 16, STuple(<<SProbe("id"), SProbe("id"), Pab>>)),
   GCall(L12, 17, STuple(<<SProbe("id"), Px>>)),
-  GCall(T1, 18, STuple(<<SCoal(<<SNest(GCall(L5, 181, Px))>>, Default(VInt(0))), SProbe("id"), Px>>))
+  GCall(T1, 18, STuple(<<SCoal(<<SNest(GCall(L5, 181, Px))>>, Default(VInt(0))), SProbe("id"), Px>>)),
+  \* 19, 20: ONE Invoke object with two .specs() steps, each a yield point, on two targets
+  Call(T1, <<>>, 19, InvSpec),
+  Call(L5, <<>>, 19, InvSpec),
+  \* 21, 22: calls entering through ONE Spec object (Spec.glom): with a caller scope, and without
+  SCall(T1, << <<"k", VInt(7)>> >>, 21, RdSpec),
+  SCall(L5, <<>>, 21, RdSpec),
+  \* 23: a failing call whose shared spec object has a yielding __repr__: trace rendering is a step
+  Call(T1, <<>>, 23, STuple(<<SRProbe, Px>>))
 >>
 C20Pool == SubSeq(FullPool, PoolFrom, PoolFrom + PoolSize - 1)
 
